@@ -233,9 +233,9 @@ class World(object):
         gconfigs = {}
         prio = {'g1': 1, 'g2': 2, 'solo': 3}
         for k, (g, p, state, quirk, sd, kd) in enumerate(VARIANTS[variant % len(VARIANTS)]):
-            logs = {'p1': ('p1.out', 'p1.err'), 'p2': ('bad.out', None), 'q1': (None, 'absent.err'),
-                    'solo': ('solo.out', 'p1.err'), u'pr\u00f6': ('p1.out', 'p1.err'),
-                    u'di\u00e9': ('solo.out', None)}[p]
+            logs = {'p1': ('p1.out', 'p1.err'), 'p2': ('bad.out', 'isdir.err'), 'q1': ('eacces.out', 'absent.err'),
+                    'solo': ('solo.out', 'p1.err'), u'pr\u00f6': ('p1.out', 'isdir.err'),
+                    u'di\u00e9': ('eacces.out', None)}[p]
             pc = DummyPConfig(opts, p, '/bin/%s -x' % p, priority=10 + k,
                               stdout_logfile=logs[0] and os.path.join(logdir, logs[0]),
                               stderr_logfile=logs[1] and os.path.join(logdir, logs[1]))
@@ -252,6 +252,11 @@ class World(object):
         opts.process_group_configs = [gconfigs[g] for g in gconfigs if g != 'solo'] + [extra]
         if variant % 2 == 1:
             opts.reread_error = 'bad config'
+        if variant == 2:
+            opts.logfile = os.path.join(logdir, 'isdir.err')       # exists, but open() fails: a directory
+        if variant == 4:
+            opts.logfile = os.path.join(logdir, 'eacces.out')      # exists, but open() fails: EACCES
+        install_open_proxy()
         # the real interface objects, built as supervisor.http.make_http_servers does
         self.iface = rpcinterface.make_main_rpcinterface(sup)
         if fixed_now:
@@ -355,6 +360,23 @@ class World(object):
             return ('exception', type(e).__name__)
 
 
+def install_open_proxy():
+    """`open` as supervisor.options (readFile / tailFile) sees it: paths containing
+    'eacces' exist but cannot be opened (the checks run as root, so a mode of 000
+    would not do it)."""
+    from supervisor import options as _sopt
+    if getattr(_sopt.__dict__.get('open'), 'c12_proxy', False):
+        return
+    import builtins
+
+    def _open(path, *a, **k):
+        if 'eacces' in str(path):
+            raise IOError(errno.EACCES, 'Permission denied', str(path))
+        return builtins.open(path, *a, **k)
+    _open.c12_proxy = True
+    _sopt.open = _open
+
+
 _subscribed = []
 
 
@@ -389,6 +411,9 @@ def write_logs(logdir):
         with open(pth, 'wb') as f:
             f.write(b'#!/bin/sh\nexec cat\n')
         os.chmod(pth, mode)
+    os.makedirs(os.path.join(logdir, 'isdir.err'), exist_ok=True)      # a log path that is a directory
+    with open(os.path.join(logdir, 'eacces.out'), 'wb') as f:          # exists; open() is refused (see install_open_proxy)
+        f.write(b'you cannot read this\n')
     os.makedirs(os.path.join(logdir, 'cmd_dir'), exist_ok=True)
     os.chmod(os.path.join(logdir, 'cmd_dir'), 0o755)
     return files
@@ -500,6 +525,7 @@ class RealWorld(World):
     def __init__(self, logdir, variant=0, mood=SupervisorStates.RUNNING):
         install_clock()
         install_os_proxy()
+        install_open_proxy()
         self.clock = FIXED_NOW
         _ACTIVE[0] = self
         self.effects = []
@@ -514,7 +540,7 @@ class RealWorld(World):
         groups, gconfigs = {}, {}
         prio = {'g1': 1, 'g2': 2, 'solo': 3}
         for k, (g, p, state, quirk) in enumerate(REAL_VARIANTS[variant % len(REAL_VARIANTS)]):
-            logs = {'p1': ('p1.out', 'p1.err'), 'p2': ('bad.out', None), 'q1': (None, 'absent.err'),
+            logs = {'p1': ('p1.out', 'p1.err'), 'p2': ('bad.out', 'isdir.err'), 'q1': ('eacces.out', 'absent.err'),
                     'solo': ('solo.out', 'p1.err')}[p]
             command = '/bin/cat'
             if quirk and quirk.startswith('cmd:'):
